@@ -824,6 +824,12 @@ _PS_NOTE = ("Trusted: hand-written counter-abstraction models (Model/PubSubAbs.v
             "(the 'n distinct subscriptions' step is a theorem); the fused atomic steps are split in Model/PubSubSplit.v. Not modelled (exercised by the harness only): "
             "checkBroken, |delta| > 1, Add(0), channel close. sync.RWMutex writer preference and TryRLock as modelled.")
 
+def c06_trace_params(exe):
+    return {"ptfile": os.path.join(os.path.dirname(exe), "instr", "points.txt")}
+
+_C06_TRACE = lambda: corr_stage("C06TRACE", 300, 3000, params=c06_trace_params, instrument=True,
+                                feature=lambda tok: " ".join(tok[5:65]) if tok[0] == "F" else None)
+
 PROPS["C06"] = dict(
     rule="C06K2: free-running programs, 1-3 senders x 1-4 tagged values, 2-6 subscribers in seven styles (manual with quota, manual on a timer, iterator cancelled, "
          "iterator break, iterator never run then cancelled, iterator cancelled then run, a standing anchor), joins/leaves at seeded points incl. mid-Send; monitors on "
@@ -838,7 +844,8 @@ PROPS["C06"] = dict(
                "refuted without the write lock. Tie: Go monitors + delay-bounded sweep."
                " Added (DESIGN 5b): every subscriber tracked by index (received by exactly `sent` distinct subscribers), standing => included from an invariant, split atomic steps re-proved (38 theorems).",
     level_note=_PS_NOTE,
-    stages=[corr_stage("C06K2", 4000, 6000, feature=feat_pubsub, seeds=3),
+    stages=[_C06_TRACE(),
+            corr_stage("C06K2", 4000, 6000, feature=feat_pubsub, seeds=3),
             corr_stage("C06S", 6, 10, feature=feat_pubsub, instrument=True, shards=6, tparams={"hits": 6}, timeout=1200),
             corr_stage("C06SUBCTX", 48, 400, feature=feat_pubsub, validate=False)],
 )
@@ -853,7 +860,8 @@ PROPS["C07"] = dict(
                "refuted when an unsubscribe during delivery is not routed through the caster. Tie: Go monitors + delay-bounded sweep + sanity differential."
                " Added (DESIGN 5b): SubscribeContext AfterFunc/stop/iterator pairing model (at most one Unsubscribe, exactly one in terminal states after cancel-or-run; ignoring stop() refuted), split-step model (30 theorems).",
     level_note=_PS_NOTE,
-    stages=[corr_stage("C06K2", 4000, 6000, feature=feat_pubsub, seeds=3, params={"salt": 7}),
+    stages=[_C06_TRACE(),
+            corr_stage("C06K2", 4000, 6000, feature=feat_pubsub, seeds=3, params={"salt": 7}),
             corr_stage("C06S", 6, 10, feature=feat_pubsub, instrument=True, shards=6, params={"salt": 7}, tparams={"hits": 6}, timeout=1200),
             corr_stage("C07SAN", 3000, 20000, feature=feat_pubsub),
             corr_stage("C06SUBCTX", 48, 400, feature=feat_pubsub, validate=False, params={"salt": 7})],
